@@ -40,9 +40,12 @@ pub enum Client {
     NonGetLongUnicode,
     NonGetLongAscii,
     NonGetEmptyLine,
+    /// POST announcing a body of 100 octets, delivering 10 (or none) and closing in an orderly way
+    NonGetShortBody,
+    NonGetNoBody,
 }
 
-pub const CLIENTS: [Client; 19] = [
+pub const CLIENTS: [Client; 21] = [
     Client::WellFormedGet,
     Client::CloseAfter0,
     Client::CloseAfterPartial,
@@ -62,6 +65,8 @@ pub const CLIENTS: [Client; 19] = [
     Client::NonGetLongUnicode,
     Client::NonGetLongAscii,
     Client::NonGetEmptyLine,
+    Client::NonGetShortBody,
+    Client::NonGetNoBody,
 ];
 
 #[derive(Clone, Copy, Debug, PartialEq, Eq, Hash, serde::Serialize, serde::Deserialize)]
@@ -175,6 +180,17 @@ pub fn act(port: u16, c: Client) -> Option<bool> {
             };
             let _ = s.write_all(&req);
             let mut t = [0u8; 64];
+            let _ = s.read(&mut t);
+        }
+        Client::NonGetShortBody | Client::NonGetNoBody => {
+            let _ = s.write_all(b"POST /metrics HTTP/1.1\r\nHost: localhost\r\nContent-Type: text/plain\r\nContent-Length: 100\r\n\r\n");
+            if c == Client::NonGetShortBody {
+                std::thread::sleep(Duration::from_millis(5));
+                let _ = s.write_all(b"0123456789");
+            }
+            // FIN, not a reset: the rest of the announced body never comes
+            let _ = s.shutdown(std::net::Shutdown::Write);
+            let mut t = [0u8; 256];
             let _ = s.read(&mut t);
         }
         Client::NonGet => {
